@@ -87,7 +87,8 @@ class C18(Prop):
                    "local names they bind; never after a dot, in strings/comments, or through an import of a proper prefix of OLD",
                    "oracle domain for maps: OLDs distinct, NEWs distinct, no NEW prefix-related to another entry's OLD "
                    "(chains/swaps are checked against the model only)",
-                   "the model's \\w is ASCII; non-ASCII text is not sent to the model (see known finding C18-D5)"]
+                   "the model's \\w is Python's on ASCII, U+0080-U+017F, Greek and CJK Unified Ideographs (compared with re on every "
+                   "code point of these blocks); text outside that alphabet is not sent to the model (see known finding C18-D5)"]
     families = {}
 
     _tmp = None
@@ -157,7 +158,20 @@ class C18(Prop):
         subs = [[k, "X.y", t] for t in texts for k in keys]
         if not thorough:
             subs = rng.sample(subs, 4000)
+        # non-ASCII word characters: `é`, `模` are `\w` for Python; the model must agree (and `éa` is one word)
+        alpha2 = ["a", "é", ".", " ", "模"]
+        texts2 = ["".join(t) for n in range(1, 5) for t in itertools.product(alpha2, repeat=n)]
+        subs2 = [[k, "X.y", t] for t in texts2 for k in ["a", "é", "a.é", "模", "é模"]]
+        subs += subs2 if thorough else rng.sample(subs2, 1200)
+        for f in ["é", "é.b", "a.é", "模块.子", "données.lecture.lire", "donnée.x"]:
+            for old in ["é", "a", "données", "donnée", "données.lecture", "模块", "模"]:
+                for a in {f, f.rsplit(".", 1)[-1], "é"}:
+                    imps.append([f, a, old, "ζ.y"])
         out = []
+        # `\w` itself, code point by code point, on the whole modelled alphabet (+ a band outside it)
+        cps = list(range(0, 0x180)) + list(range(0x370, 0x400)) + list(range(0x4E00, 0xA000)) + \
+            list(range(0x180, 0x250)) + [0x902, 0x3040, 0x3042, 0x1F600]
+        out.append(dict(kind="unit", imps=[], subs=[], cps=cps, odomain=False, map=[], text="", mods={}))
         for i in range(0, len(imps), 400):
             out.append(dict(kind="unit", imps=imps[i:i + 400], subs=[], odomain=False, map=[], text="", mods={}))
         for i in range(0, len(subs), 800):
@@ -178,6 +192,14 @@ class C18(Prop):
         text, entries, params = case["text"], case["map"], dict(case.get("params") or {})
         mode = case.get("mode", "transform")
         obs = dict(mode=mode)
+        if mode != "cli":
+            # calls made earlier in this process: first the ones the case carries, then the case itself is
+            # remembered so that a state-dependent failure of a later case can be made self-contained
+            for pc in case.get("prior_calls") or []:
+                self._plain_call(pc)
+            obs["hist_index"] = len(self._history)
+            self._history.append(dict(text=text, map=[list(e) for e in entries], mode=mode,
+                                      forget=case.get("forget"), dbsplit=case.get("dbsplit")))
         rec = _Recorder()
         Orig = I2S.SourceToSourceFileImportsTransformation
 
@@ -197,15 +219,7 @@ class C18(Prop):
         fp = ImportFormatParams(**params) if params else None
         try:
             if mode == "canonical":
-                # several assignments are merged by ImportMap._merge in order
-                cuts = [0] + sorted(set(case.get("dbsplit") or [])) + [len(entries)]
-                dbtext = ""
-                for a, b in zip(cuts, cuts[1:]):
-                    if b > a:
-                        dbtext += "__canonical_imports__ = {%s}\n" % ", ".join("%r: %r" % (k, v) for k, v in entries[a:b])
-                if case.get("forget"):
-                    dbtext += "__forget_imports__ = [%s]\n" % ", ".join(repr(k) for k in case["forget"])
-                db = ImportDB(dbtext)
+                db = ImportDB(self._dbtext(entries, case.get("forget"), case.get("dbsplit")))
                 obs["dbmap"] = [[k, v] for k, v in db.canonical_imports.items()]
                 res = canonicalize_imports(text, params=fp, db=db)
             else:
@@ -219,6 +233,35 @@ class C18(Prop):
         obs["blocks_in"] = rec.blocks_in
         obs["blocks_out"] = rec.blocks_out
         return obs
+
+    _history = []          # per process: every transform/canonicalize call made through run_impl, in order
+    _iso_budget = 2        # per process: unlisted failures that get the fresh-process treatment
+
+    @staticmethod
+    def _dbtext(entries, forget=None, dbsplit=None):
+        # several assignments are merged by ImportMap._merge in order
+        cuts = [0] + sorted(set(dbsplit or [])) + [len(entries)]
+        dbtext = ""
+        for a, b in zip(cuts, cuts[1:]):
+            if b > a:
+                dbtext += "__canonical_imports__ = {%s}\n" % ", ".join("%r: %r" % (k, v) for k, v in entries[a:b])
+        if forget:
+            dbtext += "__forget_imports__ = [%s]\n" % ", ".join(repr(k) for k in forget)
+        return dbtext
+
+    def _plain_call(self, pc):
+        """One earlier call; its result (or exception) is irrelevant."""
+        from pyflyby import transform_imports, canonicalize_imports
+        from pyflyby._importdb import ImportDB
+        self._history.append(dict(text=pc["text"], map=[list(e) for e in pc["map"]], mode=pc.get("mode", "transform"),
+                                  forget=pc.get("forget"), dbsplit=pc.get("dbsplit")))
+        try:
+            if pc.get("mode") == "canonical":
+                canonicalize_imports(pc["text"], db=ImportDB(self._dbtext(pc["map"], pc.get("forget"), pc.get("dbsplit"))))
+            else:
+                transform_imports(pc["text"], dict((k, v) for k, v in pc["map"]))
+        except Exception:
+            pass
 
     def _run_unit(self, case):
         from pyflyby._importstmt import Import
@@ -235,6 +278,8 @@ class C18(Prop):
         pat = "(?<!\\.)\\b%s\\b" if guard else "\\b%s\\b"
         for k, v, t in case["subs"]:
             obs["subs"].append(re.sub(pat % re.escape(k), v, t))
+        if case.get("cps"):
+            obs["isw"] = [bool(re.fullmatch(r"\w", chr(n))) for n in case["cps"]]
         obs["guard"] = guard
         return obs
 
@@ -242,17 +287,19 @@ class C18(Prop):
         d = tempfile.mkdtemp(prefix="c18cli_", dir=self._tmp)
         try:
             path = os.path.join(d, "prog.py")
-            with open(path, "w") as f:
+            with open(path, "w", encoding="utf-8") as f:
                 f.write(case["text"])
             env = dict(os.environ)
             env["PYTHONPATH"] = os.path.join(REPO, "lib", "python")
             env["PYFLYBY_PATH"] = "EMPTY"
             env["PYFLYBY_LOG_LEVEL"] = "ERROR"
+            env["PYTHONUTF8"] = "1"
             cmd = [sys.executable, os.path.join(REPO, "bin", "transform-imports")]
             for k, v in case["map"]:
                 cmd += ["--transform", "%s=%s" % (k, v)]
             cmd += ["--print", path]
-            p = subprocess.run(cmd, env=env, stdout=subprocess.PIPE, stderr=subprocess.PIPE, text=True, timeout=60)
+            p = subprocess.run(cmd, env=env, stdout=subprocess.PIPE, stderr=subprocess.PIPE, text=True,
+                               encoding="utf-8", timeout=60)
             if p.returncode != 0:
                 obs["err"] = "cli-exit-%d" % p.returncode
                 obs["errmsg"] = p.stderr[-300:]
@@ -288,6 +335,111 @@ class C18(Prop):
         return fails[:4]
 
     def oracle(self, case, obs):
+        fails = self._oracle_core(case, obs)
+        if fails and not case.get("_isolated"):
+            try:
+                self._make_self_contained(case, obs, fails)
+            except Exception as e:       # never turn the bookkeeping into a harness error
+                for fl in fails:
+                    fl["isolation_error"] = repr(e)[:200]
+        return fails
+
+    # -- state-dependent failures ------------------------------------------------------
+    def _unlisted(self, case, fails):
+        if not hasattr(self, "_known"):
+            from vcommon import load_known_findings
+            self._known = [e for e in load_known_findings(self.id) if e.get("status") == "finding"]
+        out = []
+        for fl in fails:
+            hit = False
+            for e in self._known:
+                fam = self.families.get(e.get("family"))
+                try:
+                    if fam and fam(case, fl):
+                        hit = True
+                        break
+                except Exception:
+                    pass
+            if not hit:
+                out.append(fl)
+        return out
+
+    def _fresh_eval(self, case, prior):
+        """Evaluate `case` preceded by the calls `prior` in a brand-new interpreter; list of failure 'what's."""
+        c = {k: v for k, v in case.items() if not k.startswith("_")}
+        c["prior_calls"] = prior
+        c["_isolated"] = True
+        env = dict(os.environ)
+        env["PYTHONUTF8"] = "1"
+        p = subprocess.run([sys.executable, os.path.abspath(__file__), "--eval"], input=json.dumps(c), env=env,
+                           stdout=subprocess.PIPE, stderr=subprocess.PIPE, text=True, encoding="utf-8", timeout=300)
+        for line in reversed(p.stdout.splitlines()):
+            if line.startswith("C18EVAL "):
+                return json.loads(line[len("C18EVAL "):])
+        raise RuntimeError("fresh evaluation failed: " + p.stderr[-300:])
+
+    def _make_self_contained(self, case, obs, fails):
+        """A failure that is not a listed finding must replay from the case alone.  The pool workers evaluate
+        many cases per process; if this failure needs calls made earlier in this process, find a small set of
+        them and record it as the case's `prior_calls` (through obs -> stats(), see there)."""
+        if case.get("kind") == "unit" or obs.get("mode") == "cli" or "hist_index" not in obs:
+            return
+        if not self._unlisted(case, fails):
+            return
+        if C18._iso_budget <= 0:
+            return
+        C18._iso_budget -= 1
+        own = list(case.get("prior_calls") or [])
+        if self._fresh_eval(case, own):
+            for fl in fails:
+                fl["self_contained"] = True
+            return
+        # passes on its own: the failure depends on what this process did before
+        hist = self._history[:obs["hist_index"] - len(own)]
+        olds = {o for o, _ in case["map"]}
+        related = [h for h in hist if olds & {o for o, _ in h["map"]}]
+        cand = None
+        for trial in (related[-60:], hist[-400:]):
+            if trial and self._fresh_eval(case, trial + own):
+                cand = trial
+                break
+        if cand is None:
+            for fl in fails:
+                fl["state_dependent"] = "passes in a fresh process; no prefix of this worker's earlier calls reproduces it"
+            return
+        # minimise: a single earlier call is the common case, then greedy removal (bounded)
+        trials = 0
+        single = None
+        for h in reversed(cand[-12:]):
+            trials += 1
+            if self._fresh_eval(case, [h] + own):
+                single = [h]
+                break
+        if single is not None:
+            cand = single
+        else:
+            n = 2
+            while len(cand) > 1 and trials < 30:
+                size = max(1, len(cand) // n)
+                reduced = False
+                for i in range(0, len(cand), size):
+                    rest = cand[:i] + cand[i + size:]
+                    trials += 1
+                    if rest and self._fresh_eval(case, rest + own):
+                        cand, n, reduced = rest, max(2, n - 1), True
+                        break
+                    if trials >= 30:
+                        break
+                if not reduced:
+                    if size == 1:
+                        break
+                    n = min(len(cand), n * 2)
+        obs["prior_calls"] = cand + own
+        for fl in fails:
+            fl["state_dependent"] = "needs %d earlier call(s) in the same process (recorded as prior_calls)" % len(cand)
+            fl["prior_calls"] = cand + own
+
+    def _oracle_core(self, case, obs):
         if case.get("kind") == "unit":
             return self._oracle_unit(case, obs)
         if not case.get("odomain"):
@@ -380,10 +532,13 @@ class C18(Prop):
         if case.get("kind") == "unit":
             reqs = [dict(op="replace", imp=[f, a], old=old, new=new) for f, a, old, new in case["imps"]]
             reqs += [dict(op="sub", old=k, new=v, text=t, guard=bool(obs.get("guard"))) for k, v, t in case["subs"]]
+            if case.get("cps"):
+                reqs.append(dict(op="isw", cps=case["cps"]))
             return reqs
         if obs.get("mode") == "cli" or obs.get("blocks_in") is None:
             return []
-        if not all(b.get("text", "").isascii() for b in obs["blocks_in"]):
+        if not all(G.in_alphabet(b.get("text", "")) for b in obs["blocks_in"]) or \
+                not all(G.in_alphabet(k + v) for k, v in case["map"]):
             return []
         return [dict(op="transform", map=self.effective_map(case), guard=g, blocks=obs["blocks_in"])]
 
@@ -405,6 +560,13 @@ class C18(Prop):
                     return "Import.replace(%r,%r,%r,%r) raised %s; the model is total" % (f, a, old, new, o["err"])
                 if o["ok"] != r["ok"] or o["split"] != r["split"] or o["rt"] != r["rt"]:
                     return "Import(%r as %r).replace(%r,%r): impl=%r model=%r" % (f, a, old, new, o, r)
+            if case.get("cps"):
+                r = resps[-1]
+                for cp, py, lw, ina in zip(case["cps"], obs["isw"], r["ok"], r["in"]):
+                    if ina != G.in_alphabet(chr(cp)):
+                        return "modelled alphabet differs at U+%04X: lean=%r harness=%r" % (cp, ina, G.in_alphabet(chr(cp)))
+                    if ina and py != lw:
+                        return "\\w differs at U+%04X: re=%r model=%r" % (cp, py, lw)
             for (k, v, t), o, r in zip(case["subs"], obs["subs"], resps[n:]):
                 if o != r["ok"]:
                     return "re.sub(%r -> %r, %r): re=%r model=%r" % (k, v, t, o, r["ok"])
@@ -517,6 +679,19 @@ class C18(Prop):
     def stats(self, case, obs, acc):
         def inc(k):
             acc[k] = acc.get(k, 0) + 1
+        if obs.get("prior_calls") is not None:
+            # found by _make_self_contained in the worker: the replay file is written from this dict
+            case["prior_calls"] = obs["prior_calls"]
+            inc("state_dependent_failures_made_self_contained")
+        if case.get("kind") == "unit":
+            inc("unit_cases")
+            return
+        if case.get("prior_calls"):
+            inc("with_prior_calls")
+        if not case["text"].isascii() or not all((k + v).isascii() for k, v in case["map"]):
+            inc("non_ascii_identifiers")
+            if any(not o.split(".")[0].isascii() for o, _ in case["map"]):
+                inc("non_ascii_old_root")
         inc("src_" + case.get("_src", "?"))
         inc("mode_" + case.get("mode", "transform"))
         inc("odomain" if case.get("odomain") else "konly")
@@ -548,3 +723,23 @@ PROP.families = {
     "nested_from_import": PROP.fam_nested_from_import,
     "identifier_not_w": PROP.fam_identifier_not_w,
 }
+
+
+def _eval_main():
+    """`python c18.py --eval` < case.json : evaluate one case (with its prior_calls) in this fresh interpreter."""
+    import random
+    import vcommon
+    vcommon.setup_repo_path()
+    case = json.loads(sys.stdin.read())
+    PROP.setup("quick", random.Random(0))
+    try:
+        obs = PROP.run_impl(case)
+        fails = PROP._oracle_core(case, obs)
+    finally:
+        PROP.teardown()
+    print("C18EVAL " + json.dumps([f.get("what") for f in fails]))
+
+
+if __name__ == "__main__" and "--eval" in sys.argv:
+    sys.path.insert(0, os.path.dirname(os.path.abspath(__file__)))
+    _eval_main()
